@@ -107,8 +107,9 @@ PEER_ATTRS = {"iocap": "p_iocap"}
 
 
 class FnTr:
-    def __init__(self, name, consts, peers, locals_):
+    def __init__(self, name, consts, peers, locals_, self_calls=None):
         self.name, self.consts, self.peers, self.locals = name, consts, peers, set(locals_)
+        self.self_calls = self_calls or {}      # self.<method>() -> Gallina variable
 
     def bad(self, node, why="unsupported node"):
         raise Unsupported("%s: line %d: %s: %s" % (self.name, getattr(node, "lineno", 0), why, ast.dump(node)[:120]))
@@ -139,6 +140,10 @@ class FnTr:
         if (isinstance(e, ast.Attribute) and isinstance(e.value, ast.Name) and e.value.id in self.peers
                 and e.attr in PEER_ATTRS):
             return "(%s %s)" % (PEER_ATTRS[e.attr], e.value.id)
+        if (self.self_calls and isinstance(e, ast.Call) and not e.args and not e.keywords
+                and isinstance(e.func, ast.Attribute) and isinstance(e.func.value, ast.Name)
+                and e.func.value.id == "self" and e.func.attr in self.self_calls):
+            return self.self_calls[e.func.attr]
         self.bad(e)
 
     def ret(self, e):
@@ -240,7 +245,8 @@ def translate_selection(repo, consts):
 
 
 def translate_pin_source(repo, consts):
-    """get_pin_code: `self_iocap = <own iocap>`; `if <test on self_iocap>: <input()> else: <randint(0, 999999)>`"""
+    """get_pin_code: `self_iocap = <own iocap>` [; `peer_iocap = <peer iocap>`];
+    `if <test on self_iocap, peer_iocap, self.is_initiator()>: <input()> else: <randint(0, 999999)>`"""
     src = open(os.path.join(repo, SMP)).read()
     tree = ast.parse(src)
     lines = src.splitlines(keepends=True)
@@ -248,15 +254,28 @@ def translate_pin_source(repo, consts):
     name = "get_pin_code"
     body = [s for s in fn.body
             if not (isinstance(s, ast.Expr) and isinstance(s.value, ast.Constant) and isinstance(s.value.value, str))]
-    if len(body) != 2 or not isinstance(body[0], ast.Assign) or not isinstance(body[1], ast.If):
-        raise Unsupported("%s: expected `self_iocap = ...` followed by one if/else" % name)
-    asg = body[0]
+    if len(body) not in (2, 3) or not all(isinstance(b, ast.Assign) for b in body[:-1]) or not isinstance(body[-1], ast.If):
+        raise Unsupported("%s: expected `self_iocap = ...` [`peer_iocap = ...`] followed by one if/else" % name)
     own = "self.state.initiator.iocap if self.is_initiator() else self.state.responder.iocap"
-    if not (len(asg.targets) == 1 and isinstance(asg.targets[0], ast.Name) and ast.unparse(asg.value) == own):
-        raise Unsupported("%s: line %d: the tested value is not the device's own IO capability: %s"
-                          % (name, asg.lineno, ast.unparse(asg.value)[:100]))
-    var = asg.targets[0].id
-    tr = FnTr(name, consts, (), [var])
+    peer = "self.state.responder.iocap if self.is_initiator() else self.state.initiator.iocap"
+    roles = {}
+    for asg in body[:-1]:
+        txt = ast.unparse(asg.value)
+        if not (len(asg.targets) == 1 and isinstance(asg.targets[0], ast.Name) and txt in (own, peer)):
+            raise Unsupported("%s: line %d: assigned value is neither the device's own nor the peer's IO capability: %s"
+                              % (name, asg.lineno, txt[:100]))
+        roles[asg.targets[0].id] = "self_iocap" if txt == own else "peer_iocap"
+    if "self_iocap" not in roles.values() or len(set(roles.values())) != len(roles):
+        raise Unsupported("%s: the device's own IO capability is not read (or a value is read twice)" % name)
+    # the Python local names are mapped to the fixed Gallina parameters self_iocap / peer_iocap
+    tr = FnTr(name, consts, (), list(roles), self_calls={"is_initiator": "is_initiator"})
+    _expr = tr.expr
+
+    def expr(e):
+        if isinstance(e, ast.Name) and e.id in roles:
+            return roles[e.id]
+        return _expr(e)
+    tr.expr = expr
 
     def classify(stmts):
         calls = set()
@@ -293,7 +312,8 @@ def translate_pin_source(repo, consts):
             raise Unsupported("%s: if without else (falls through returning None)" % name)
         return "(if %s then %s else %s)" % (test, a, b)
 
-    text = "Definition get_pin_code_source (%s : N) : pin_src :=\n %s.\n" % (var, cond(body[1]))
+    text = ("Definition get_pin_code_source (is_initiator : bool) (self_iocap peer_iocap : N) : pin_src :=\n %s.\n"
+            % cond(body[-1]))
     return text, {"file": SMP, "lines": [fn.lineno, fn.end_lineno], "sha256": _sha(_seg(lines, fn))}
 
 
